@@ -18,7 +18,7 @@ import (
 
 // C15: reattach reaches the same live plugin; test mode never kills the server.
 
-var c15Scenarios = []string{"basic", "second-hop", "multi", "kill-b", "kill-a-then-b", "kill-both", "frozen-kill-b", "kill-a-then-reattach", "crash-then-reattach", "nothing-listens", "pid-reused", "dies-before-connect", "connect-fails-once", "testmode", "testmode-kill-many", "testmode-second-hop", "testmode-late", "testmode-long", "testmode-versioned"}
+var c15Scenarios = []string{"basic", "second-hop", "multi", "kill-b", "kill-a-then-b", "kill-both", "frozen-kill-b", "kill-a-then-reattach", "crash-then-reattach", "nothing-listens", "pid-reused", "dies-before-connect", "connect-fails-once", "reattachfunc-reused", "testmode", "testmode-kill-many", "testmode-second-hop", "testmode-late", "testmode-long", "testmode-versioned"}
 
 func init() {
 	Register(&Prop{ID: "C15",
@@ -309,6 +309,22 @@ func runC15(r *h.Run) {
 			r.Violate("killed-on-failed-reattach", ctx, "a failed reattach terminated the plugin")
 		}
 		bystanderAlive(scen)
+	case "reattachfunc-reused":
+		// the host keeps ONE ReattachConfig with an explicit ReattachFunc and uses
+		// it for every reattach: after the plugin was killed through a client
+		// reattached with it, the next reattach with it finds nothing
+		rcF := &plugin.ReattachConfig{Protocol: rc.Protocol, ProtocolVersion: rc.ProtocolVersion, Addr: rc.Addr, ReattachFunc: plugin.ReattachFuncForSim(rc.Pid, rc.Addr)}
+		b := reattachClient(r, proto, rcF, "B")
+		checkSees(b, "B")
+		c2 := reattachClient(r, proto, rcF, "C")
+		checkSees(c2, "C")
+		kill(b, "B")
+		time.Sleep(3 * time.Second)
+		if plug.Alive() {
+			r.Violate("kill-did-not-terminate", ctx+" client=B", "Kill on the reattached client left the plugin running")
+		}
+		expectNotFound(reattachClient(r, proto, rcF, "D"), "D")
+		kill(c2, "C")
 	case "dies-before-connect", "connect-fails-once":
 		// the reattach itself succeeds; the first connect through the reattached
 		// client fails - the plugin died in between, or its socket could not be
